@@ -107,6 +107,8 @@ def gen_result(rng, depth=0):
         how = rng.choice(['return', 'raise', 'yield'])
         spec = {'k': 'resp', 'cls': cls, 'status': rng.choice(STATUSES), 'how': how,
                 'headers': gen_headers(rng) if rng.random() < 0.5 else []}
+        if rng.random() < 0.15:
+            spec['cookie'] = rng.choice(['plain', 'Łódź', '日本'])
         if cls == 'HTTPError':
             spec['body'] = {'k': 'str', 'v': rng.choice(TEXTS)}
             if isinstance(spec['status'], int) and spec['status'] < 400 and rng.random() < 0.5:
@@ -160,7 +162,8 @@ def _gen_case(rng, tier):
             h = gen_headers(rng)[0]
             case['mutations'].append(['header', h[0], h[1]])
         else:
-            case['mutations'].append(['cookie', rng.choice(['sid', 'c2']), rng.choice(['v1', 'a b', 'ünï'])])
+            case['mutations'].append(['cookie', rng.choice(['sid', 'c2']),
+                                      rng.choice(['v1', 'a b', 'ünï', 'Łódź', '日本語', 'x;y,z"q', 'Привет'])])
     for code in rng.sample([404, 405, 500, 418, 400, 413], rng.choice([0, 0, 1, 2])):
         case['error_handlers'].append([code, rng.choice(['str', 'bytes', 'list', 'empty', 'str', 'bytes', 'list', 'empty', 'cycle'])])
     if case['before'] and case['path'] != 'miss' and rng.random() < 0.12:
@@ -372,6 +375,8 @@ def build(spec, ctx, label='r'):
         else:
             body = build(spec['body'], ctx, label + 'b')
             obj = ombott.HTTPResponse(body, status, hdrs or None)
+        if spec.get('cookie'):
+            obj.set_cookie('rc', spec['cookie'])
         if spec['how'] == 'raise':
             raise obj
         if spec['how'] == 'yield':
